@@ -360,7 +360,7 @@ def check(pid, tier, seed):
     ]
     cov = hub_part(R, pid, tier, seed)
     thcov = {}
-    if pid == "C18" or tier == "thorough":
+    if pid in ("C18", "C10") or tier == "thorough":
         # end to end: real SHIP connections report their state changes to real hubs
         from . import twohubs
         thcov = twohubs.th_part(R, pid, tier, seed)
